@@ -297,9 +297,21 @@ func (y *yieldLimiter) Acquire(ctx context.Context) (core.Listener, bool) {
 	return &yieldListener{l, y.s}, true
 }
 func (y *yieldLimiter) String() string { return "yieldLimiter" }
-func (l *yieldListener) OnSuccess()    { l.inner.OnSuccess(); l.s.Point("inner.completed") }
-func (l *yieldListener) OnIgnore()     { l.inner.OnIgnore(); l.s.Point("inner.completed") }
-func (l *yieldListener) OnDropped()    { l.inner.OnDropped(); l.s.Point("inner.completed") }
+func (l *yieldListener) OnSuccess() {
+	l.s.Point("inner.completing")
+	l.inner.OnSuccess()
+	l.s.Point("inner.completed")
+}
+func (l *yieldListener) OnIgnore() {
+	l.s.Point("inner.completing")
+	l.inner.OnIgnore()
+	l.s.Point("inner.completed")
+}
+func (l *yieldListener) OnDropped() {
+	l.s.Point("inner.completing")
+	l.inner.OnDropped()
+	l.s.Point("inner.completed")
+}
 
 // ---------------------------------------------------------------------------------------------
 // stacks
